@@ -149,9 +149,16 @@ def str_endswith(s, p, *a):
 
 
 def str_find(s, sub, *a):
-    if a:
-        raise HarnessError('find with start/end not modelled')
-    return mk_int(z3.IndexOf(z(s), z(sub), z3.IntVal(0)))
+    if len(a) > 1:
+        raise HarnessError('find with an end argument is not modelled')
+    if not a or a[0] is None:
+        return mk_int(z3.IndexOf(z(s), z(sub), z3.IntVal(0)))
+    zs = z(s)
+    start = a[0].e if isinstance(a[0], Sym) else z3.IntVal(a[0])
+    n = z3.Length(zs)
+    # Python clamps a negative start to max(len+start, 0); a start beyond the end finds nothing
+    start = z3.If(start < 0, z3.If(n + start < 0, z3.IntVal(0), n + start), start)
+    return mk_int(z3.simplify(z3.If(start > n, z3.IntVal(-1), z3.IndexOf(zs, z(sub), start))))
 
 
 def str_index(s, sub, *a):
